@@ -456,7 +456,7 @@ class Persona(object):
         if b == 'itemize_though_less':
             return self.itemize_though_less
         if b == 'filling_8283':
-            return True
+            return getattr(self, 'filing_8283', True)
         if b.endswith('_type') or b.endswith('_desc'):
             return 'described here'
         return None
@@ -680,6 +680,9 @@ def directed_personas(year, seed, n):
         p = plain_persona(year, 'MFJ', [round(r.uniform(50000, 90000), 2), round(r.uniform(30000, 60000), 2)], key=f'dirhsa:{seed}:{k}',
                                hsa_you=True, hsa_spouse=True, hsa_family=False, s1_adjust=True)
         out.append(('F4d', p))
+        # married filing separately: the filer has an HSA and says the spouse has one too (the spouse files an own return)
+        p = plain_persona(year, 'MFS', round(r.uniform(50000, 90000), 2), key=f'dirhsamfs:{seed}:{k}', hsa_you=True, hsa_spouse=True, hsa_family=False, s1_adjust=True)
+        out.append(('F4m', p))
         # a filer of 55 or more with self-only coverage (the additional contribution), and one covered for part of the year only
         p = plain_persona(year, 'S', round(r.uniform(50000, 90000), 2), key=f'dirhsa55:{seed}:{k}', hsa_you=True, hsa_family=False, s1_adjust=True)
         p.hsa_over_55 = True
@@ -846,6 +849,15 @@ def directed_personas(year, seed, n):
         p.sa['state_local_real_estate_taxes'] = round(r.uniform(500, 2500), 2)
         p.sa['charitable_cash_check'] = round(r.uniform(100, 900), 2)
         out.append(('F3l', p))
+        # a real itemizer whose non-cash gifts sit just under the $500 above which Form 8283 is needed - and who does not file one
+        st_ = r.choice(['S', 'HOH'])
+        p = plain_persona(year, st_, round(r.uniform(70000, 120000), 2), key=f'dir8283:{seed}:{k}', deps_odc=1 if st_ == 'HOH' else 0, itemize=True, n_1098=1,
+                          f1098=[{'box_1': round(r.uniform(16000, 22000), 2), 'box_6': 0.0, 'box_4': 0.0, 'box_5': 0.0}])
+        p.sa['state_local_real_estate_taxes'] = 4000.0
+        p.sa['charitable_other_than_cash_check'] = 499.5
+        p.filing_8283 = False
+        p.overrides['1040_sa.filling_8283'] = 'no'
+        out.append(('F3n', p))
         # ... and one with nothing at all to put on Schedule A (no state tax withheld, no mortgage, no gifts): the total is 0.00
         p = plain_persona(year, 'S', round(r.uniform(40000, 90000), 2), key=f'diritemzero:{seed}:{k}', itemize=True)
         for d in p.w2:
@@ -864,6 +876,21 @@ def directed_personas(year, seed, n):
         p.ira_mode = 'plain'
         p.ira_modes = {'you': 'plain', 'spouse': 'rollover'}
         out.append(('F9s', p))
+        # Schedule 1 "other income" with a described item next to a mortgage interest refund (two items on line 8z)
+        p = plain_persona(year, r.choice(['S', 'MFJ']), round(r.uniform(50000, 90000), 2), key=f'dirotherinc:{seed}:{k}', n_1098=1,
+                          f1098=[{'box_1': 5000.0, 'box_6': 0.0, 'box_4': round(r.uniform(50, 400), 2), 'box_5': 0.0}], s1_income=True)
+        p.need_other_income = True
+        p.s1['other_income_amount'] = round(r.uniform(500, 3000), 2)
+        out.append(('F10o', p))
+        # little earned income and investment income above the earned-income-credit ceiling (the credit is ruled out by that alone)
+        p = plain_persona(year, 'S', round(r.uniform(2000, 6000), 2), key=f'direicinv:{seed}:{k}', n_int=1,
+                          ints=[{'box_1': round(r.uniform(12000, 15000), 2), 'box_3': 0.0, 'box_4': 0.0, 'box_6': 0.0, 'box_8': 0.0, 'box_2': 0.0}])
+        out.append(('F2e', p))
+        # two employers, one paying above 200,000 (and withholding the additional 0.9 %) and one far below: Form 8959 with an excess
+        p = plain_persona(year, 'S', [round(r.uniform(205000, 230000), 2), round(r.uniform(15000, 40000), 2)], key=f'dirtwoemp:{seed}:{k}')
+        for d in p.w2:
+            d['box_6'] = round(d['box_5'] * 0.0145 + max(0.0, d['box_5'] - 200000.0) * 0.009 + 40.0, 2)
+        out.append(('F6t', p))
         # plain (fully taxable) IRA distributions of both spouses
         p = plain_persona(year, 'MFJ', [round(r.uniform(40000, 90000), 2), round(r.uniform(30000, 60000), 2)], key=f'dirira:{seed}:{k}')
         p.n_1099r = 2
